@@ -10,6 +10,10 @@ import Mathlib.Tactic.Ring
 import Mathlib.Tactic.Linarith
 import BB.Model.Sequence
 import BB.Proofs.Basic
+import BB.Proofs.G3Awg
+import BB.Model.Codec
+import BB.Proofs.G3Check
+import BB.Proofs.G3Cells
 
 namespace BB.C14
 open BB BB.Sequence
@@ -414,5 +418,812 @@ theorem awg_content (s : Sequence) (d : Deferred AWGPkg) (pkg : AWGPkg)
                             simp [List.getElem?_eq_getElem hr, ← er]
                           · simp only [awgPackage, List.getElem?_map, List.getElem?_eq_getElem hr, ← er, Option.map_some]
                             exact ⟨trivial, trivial, trivial, trivial⟩
+
+/-! ### the delivered package: channel order, shape, content (channels tied to `Sequence.channels`) -/
+
+/-- **shape of the delivered package**: its channel list is `Sequence.channels`; there is one
+    waveform / marker-1 / marker-2 column per channel, each with one entry per position; the four
+    sequencing lists have one entry per position -/
+theorem awg_shape (s : Sequence) (d : Deferred AWGPkg) (pkg : AWGPkg)
+    (h : s.outputForAWGFile = .ok d) (hp : d.pkg = some pkg) :
+    ∃ P, s.prepareForOutputting = .ok P ∧ P.length = s.data.length ∧ s.channels = .ok pkg.channels ∧
+      pkg.wfms.length = pkg.channels.length ∧ pkg.m1s.length = pkg.channels.length ∧
+      pkg.m2s.length = pkg.channels.length ∧
+      (∀ col ∈ pkg.wfms, col.length = P.length) ∧ (∀ col ∈ pkg.m1s, col.length = P.length) ∧
+      (∀ col ∈ pkg.m2s, col.length = P.length) ∧
+      pkg.nreps.length = P.length ∧ pkg.trig_waits.length = P.length ∧ pkg.gotos.length = P.length ∧
+      pkg.jump_tos.length = P.length := by
+  obtain ⟨P, chans, checked, hP, hch, _, hchecked, _, hcase⟩ := G3.awg_inv s d h
+  rcases hcase with ⟨er, _, _, _, hnone⟩ | ⟨rows, hrows, _, hpkg⟩
+  · rw [hnone] at hp; cases hp
+  · rw [hpkg] at hp
+    simp only [Option.some.injEq] at hp
+    subst hp
+    obtain ⟨_, _, hlen, _, _⟩ := G3.prepare_cells s P hP
+    have hl := mapM_ok_length _ _ _ hrows
+    have hlc := mapM_ok_length _ _ _ hchecked
+    simp only [List.length_zip, List.length_range, Nat.min_self] at hl hlc
+    have hallw : ∀ r ∈ checked.map (fun row => row.map (·.2)), r.length = chans.length := by
+      intro r hr
+      obtain ⟨x, hx, rfl⟩ := List.mem_map.mp hr
+      obtain ⟨y, hy, hxy⟩ := G3.mapM_result_mem _ _ _ hchecked x hx
+      simp only [List.length_map]
+      exact mapM_ok_length _ _ _ hxy
+    have hall1 : ∀ r ∈ rows.map (·.1), r.length = chans.length := by
+      intro r hr
+      obtain ⟨x, hx, rfl⟩ := List.mem_map.mp hr
+      obtain ⟨y, hy, hxy⟩ := G3.mapM_result_mem _ _ _ hrows x hx
+      exact mapM_ok_length _ _ _ (G3.awgRow_inv s chans _ y x hxy).1
+    have hall2 : ∀ r ∈ rows.map (·.2.1), r.length = chans.length := by
+      intro r hr
+      obtain ⟨x, hx, rfl⟩ := List.mem_map.mp hr
+      obtain ⟨y, hy, hxy⟩ := G3.mapM_result_mem _ _ _ hrows x hx
+      exact mapM_ok_length _ _ _ (G3.awgRow_inv s chans _ y x hxy).2.1
+    refine ⟨P, hP, hlen, hch, ?_, ?_, ?_, ?_, ?_, ?_, ?_, ?_, ?_, ?_⟩
+    · simp [awgPackage, G3.transpose_length]
+    · simp [awgPackage, G3.transpose_length]
+    · simp [awgPackage, G3.transpose_length]
+    · intro col hc
+      have := G3.transpose_row_length _ _ hallw col hc
+      simp only [List.length_map] at this
+      omega
+    · intro col hc
+      have := G3.transpose_row_length _ _ hall1 col hc
+      simp only [List.length_map] at this
+      omega
+    · intro col hc
+      have := G3.transpose_row_length _ _ hall2 col hc
+      simp only [List.length_map] at this
+      omega
+    · simp [awgPackage, hl]
+    · simp [awgPackage, hl]
+    · simp [awgPackage, hl]
+    · simp [awgPackage, hl]
+
+/-- **content of the delivered package, tied to `Sequence.channels`**: for channel `i` of
+    `pkg.channels` (= `Sequence.channels`) and position `p` (0-based), `pkg.wfms[i][p]` is the
+    waveform `awgCheckWave` accepted for that channel of the forged element `P[p]` (in range and
+    tagged with the rescaling, see `awgCheckWave_ok`), `pkg.m1s[i][p]` / `pkg.m2s[i][p]` are the
+    unmodified marker arrays of that channel, and the four sequencing lists hold at `p` the values
+    of the sequencing entry of position `p + 1`, which passed the AWG5014 checks -/
+theorem awg_content_channels (s : Sequence) (d : Deferred AWGPkg) (pkg : AWGPkg)
+    (h : s.outputForAWGFile = .ok d) (hp : d.pkg = some pkg) :
+    ∃ P, s.prepareForOutputting = .ok P ∧ s.channels = .ok pkg.channels ∧
+      (∀ i (hi : i < pkg.channels.length) p (hpp : p < P.length), ∃ ob w c m1 m2,
+          awgCheckWave s (p + 1) P[p] pkg.channels[i] = .ok (ob, w) ∧ (pkg.wfms[i]?).bind (·[p]?) = some w ∧
+          lookupCh P[p] pkg.channels[i] = .ok c ∧ chMarker c 1 = .ok m1 ∧ chMarker c 2 = .ok m2 ∧
+          (pkg.m1s[i]?).bind (·[p]?) = some m1 ∧ (pkg.m2s[i]?).bind (·[p]?) = some m2) ∧
+      (∀ p (hpp : p < P.length), ∃ q, Dict.get? s.sequencing ((p + 1 : ℕ) : ℤ) = some q ∧
+          awgSeqCheck q (P.length : ℤ) = .ok () ∧
+          pkg.trig_waits[p]? = some q.twait ∧ pkg.nreps[p]? = some q.nrep ∧
+          pkg.jump_tos[p]? = some q.jump_target ∧ pkg.gotos[p]? = some q.goto) := by
+  obtain ⟨P, chans, checked, hP, hch, _, hchecked, _, hcase⟩ := G3.awg_inv s d h
+  rcases hcase with ⟨er, _, _, _, hnone⟩ | ⟨rows, hrows, _, hpkg⟩
+  · rw [hnone] at hp; cases hp
+  · rw [hpkg] at hp
+    simp only [Option.some.injEq] at hp
+    subst hp
+    have hl := mapM_ok_length _ _ _ hrows
+    have hlc := mapM_ok_length _ _ _ hchecked
+    simp only [List.length_zip, List.length_range, Nat.min_self] at hl hlc
+    have hallw : ∀ r ∈ checked.map (fun row => row.map (·.2)), r.length = chans.length := by
+      intro r hr
+      obtain ⟨x, hx, rfl⟩ := List.mem_map.mp hr
+      obtain ⟨y, hy, hxy⟩ := G3.mapM_result_mem _ _ _ hchecked x hx
+      simp only [List.length_map]
+      exact mapM_ok_length _ _ _ hxy
+    have hall1 : ∀ r ∈ rows.map (·.1), r.length = chans.length := by
+      intro r hr
+      obtain ⟨x, hx, rfl⟩ := List.mem_map.mp hr
+      obtain ⟨y, hy, hxy⟩ := G3.mapM_result_mem _ _ _ hrows x hx
+      exact mapM_ok_length _ _ _ (G3.awgRow_inv s chans _ y x hxy).1
+    have hall2 : ∀ r ∈ rows.map (·.2.1), r.length = chans.length := by
+      intro r hr
+      obtain ⟨x, hx, rfl⟩ := List.mem_map.mp hr
+      obtain ⟨y, hy, hxy⟩ := G3.mapM_result_mem _ _ _ hrows x hx
+      exact mapM_ok_length _ _ _ (G3.awgRow_inv s chans _ y x hxy).2.1
+    refine ⟨P, hP, hch, ?_, ?_⟩
+    · intro i hi p hpp
+      have hi : i < chans.length := hi
+      have hz : p < (P.zip (List.range P.length)).length := by simp; exact hpp
+      have hr : p < checked.length := by omega
+      have hr' : p < rows.length := by omega
+      -- waveform
+      have er := mapM_ok_getElem _ _ _ hchecked p hz hr
+      simp only [List.getElem_zip, List.getElem_range] at er
+      have hrl := mapM_ok_length _ _ _ er
+      have hi' : i < (checked[p]).length := by omega
+      have ec := mapM_ok_getElem _ _ _ er i hi hi'
+      -- markers
+      have erow := mapM_ok_getElem _ _ _ hrows p hz hr'
+      simp only [List.getElem_zip, List.getElem_range] at erow
+      obtain ⟨hm1, hm2, _, _⟩ := G3.awgRow_inv s chans _ _ _ erow
+      have l1 := mapM_ok_length _ _ _ hm1
+      have l2 := mapM_ok_length _ _ _ hm2
+      have e1 := mapM_ok_getElem _ _ _ hm1 i hi (by omega)
+      have e2 := mapM_ok_getElem _ _ _ hm2 i hi (by omega)
+      simp only at e1 e2
+      cases hc : lookupCh P[p] chans[i] with
+      | error e => rw [hc] at e1; cases e1
+      | ok c =>
+        rw [hc] at e1 e2
+        simp only at e1 e2
+        refine ⟨(checked[p])[i].1, (checked[p])[i].2, c, _, _, ec, ?_, hc, e1, e2, ?_, ?_⟩
+        · have := transpose_getElem? chans.length (checked.map (fun row => row.map (·.2))) hallw i hi p
+            (by simpa using hr)
+          show ((awgPackage chans chans.length _ rows).wfms[i]?).bind (·[p]?) = _
+          simp only [awgPackage]
+          rw [this]
+          simp [List.getElem?_eq_getElem hr, List.getElem?_eq_getElem hi']
+        · have := transpose_getElem? chans.length (rows.map (·.1)) hall1 i hi p (by simpa using hr')
+          show ((awgPackage chans chans.length _ rows).m1s[i]?).bind (·[p]?) = _
+          simp only [awgPackage]
+          rw [this]
+          simp [List.getElem?_eq_getElem hr', List.getElem?_eq_getElem (show i < (rows[p]).1.length by omega)]
+        · have := transpose_getElem? chans.length (rows.map (·.2.1)) hall2 i hi p (by simpa using hr')
+          show ((awgPackage chans chans.length _ rows).m2s[i]?).bind (·[p]?) = _
+          simp only [awgPackage]
+          rw [this]
+          simp [List.getElem?_eq_getElem hr', List.getElem?_eq_getElem (show i < (rows[p]).2.1.length by omega)]
+    · intro p hpp
+      have hz : p < (P.zip (List.range P.length)).length := by simp; exact hpp
+      have hr' : p < rows.length := by omega
+      have erow := mapM_ok_getElem _ _ _ hrows p hz hr'
+      simp only [List.getElem_zip, List.getElem_range] at erow
+      obtain ⟨_, _, hq, hchk⟩ := G3.awgRow_inv s chans _ _ _ erow
+      refine ⟨(rows[p]).2.2, hq, hchk, ?_⟩
+      simp [awgPackage, List.getElem?_eq_getElem hr']
+
+/-! ### indexing and slicing the package (`_AWGOutput.__getitem__`) -/
+
+/-- the tuple `_AWGOutput.__getitem__` builds for the selected channel indices: the waveform and
+    marker columns of those channels (`Codec.pick`, the function the executable model applies), the
+    four sequencing lists as they are -/
+def select (pkg : AWGPkg) (idx : List ℕ) : AWGPkg :=
+  { pkg with wfms := Codec.pick pkg.wfms idx, m1s := Codec.pick pkg.m1s idx, m2s := Codec.pick pkg.m2s idx }
+
+/-- `pkg[key]` for an int key (KeyError when the channel index does not exist) -/
+def getItem (pkg : AWGPkg) (key : ℤ) : Except Err AWGPkg :=
+  (awgIndex pkg.wfms.length key).map (select pkg)
+
+/-- `pkg[start:stop:step]` (`none` = omitted bound) -/
+def getSlice (pkg : AWGPkg) (start stop step : Option ℤ) : Except Err AWGPkg :=
+  (awgSlice pkg.wfms.length start stop step).map (select pkg)
+
+/-- indexing or slicing leaves the four sequencing lists (and the channel names) intact -/
+theorem select_sequencing (pkg : AWGPkg) (idx : List ℕ) :
+    (select pkg idx).nreps = pkg.nreps ∧ (select pkg idx).trig_waits = pkg.trig_waits ∧
+    (select pkg idx).gotos = pkg.gotos ∧ (select pkg idx).jump_tos = pkg.jump_tos ∧
+    (select pkg idx).channels = pkg.channels := ⟨rfl, rfl, rfl, rfl, rfl⟩
+
+/-- ... so whatever `pkg[i]` / `pkg[a:b:c]` returns carries the sequencing lists of the package -/
+theorem getItem_getSlice_sequencing (pkg r : AWGPkg) (key : ℤ) (a b c : Option ℤ)
+    (h : getItem pkg key = .ok r ∨ getSlice pkg a b c = .ok r) :
+    r.nreps = pkg.nreps ∧ r.trig_waits = pkg.trig_waits ∧ r.gotos = pkg.gotos ∧ r.jump_tos = pkg.jump_tos := by
+  rcases h with h | h
+  · unfold getItem at h
+    cases hi : awgIndex pkg.wfms.length key with
+    | error e => rw [hi] at h; simp [Except.map] at h
+    | ok idx =>
+      rw [hi] at h
+      simp only [Except.map, Except.ok.injEq] at h
+      subst h
+      exact ⟨rfl, rfl, rfl, rfl⟩
+  · unfold getSlice at h
+    cases hi : awgSlice pkg.wfms.length a b c with
+    | error e => rw [hi] at h; simp [Except.map] at h
+    | ok idx =>
+      rw [hi] at h
+      simp only [Except.map, Except.ok.injEq] at h
+      subst h
+      exact ⟨rfl, rfl, rfl, rfl⟩
+
+/-- slicing clause, list level: entry `k` of a selection is the entry of the `k`-th requested index -/
+theorem pick_getElem {α : Type} (l : List α) (idx : List ℕ) (hall : ∀ i ∈ idx, i < l.length) (k : ℕ) :
+    (Codec.pick l idx)[k]? = (idx[k]?).bind (fun i => l[i]?) := by
+  unfold Codec.pick
+  induction idx generalizing k with
+  | nil => simp
+  | cons i is ih =>
+    have hi : i < l.length := hall i (by simp)
+    simp only [List.filterMap_cons, List.getElem?_eq_getElem hi]
+    cases k with
+    | zero => simp [List.getElem?_eq_getElem hi]
+    | succ k =>
+      simp only [List.getElem?_cons_succ]
+      exact ih (fun j hj => hall j (by simp [hj])) k
+
+/-- slicing clause, list level: a selection of existing indices has one entry per requested index -/
+theorem pick_length {α : Type} (l : List α) (idx : List ℕ) (hall : ∀ i ∈ idx, i < l.length) :
+    (Codec.pick l idx).length = idx.length := by
+  unfold Codec.pick
+  induction idx with
+  | nil => rfl
+  | cons i is ih =>
+    have hi : i < l.length := hall i (by simp)
+    simp only [List.filterMap_cons, List.getElem?_eq_getElem hi, List.length_cons]
+    rw [ih (fun j hj => hall j (by simp [hj]))]
+
+/-- slicing clause, list level: selecting every index in order gives the list back (`pkg[:]`) -/
+theorem pick_range {α : Type} (l : List α) : Codec.pick l (List.range l.length) = l := by
+  apply List.ext_getElem?
+  intro k
+  rw [pick_getElem l _ (by intro i hi; simpa using hi)]
+  by_cases hk : k < l.length
+  · simp [List.getElem?_range hk]
+  · have h1 : (List.range l.length)[k]? = none := by simp; omega
+    have h2 : l[k]? = none := by simp; omega
+    rw [h1, h2]; rfl
+
+/-- slicing clause, list level: selecting one existing index gives that one entry (`pkg[i]`) -/
+theorem pick_single {α : Type} (l : List α) (i : ℕ) (hi : i < l.length) : Codec.pick l [i] = [l[i]] := by
+  simp [Codec.pick, List.getElem?_eq_getElem hi]
+
+/-- **a selection holds exactly the selected channels, in the order asked for**: entry `k` of each
+    of the three columns lists is the column of channel `idx[k]` of the package -/
+theorem select_getElem (pkg : AWGPkg) (idx : List ℕ)
+    (hm1 : pkg.m1s.length = pkg.wfms.length) (hm2 : pkg.m2s.length = pkg.wfms.length)
+    (hall : ∀ i ∈ idx, i < pkg.wfms.length) (k : ℕ) :
+    (select pkg idx).wfms[k]? = (idx[k]?).bind (fun i => pkg.wfms[i]?) ∧
+    (select pkg idx).m1s[k]? = (idx[k]?).bind (fun i => pkg.m1s[i]?) ∧
+    (select pkg idx).m2s[k]? = (idx[k]?).bind (fun i => pkg.m2s[i]?) ∧
+    (select pkg idx).wfms.length = idx.length := by
+  refine ⟨pick_getElem _ _ hall k, pick_getElem _ _ (by rw [hm1]; exact hall) k,
+    pick_getElem _ _ (by rw [hm2]; exact hall) k, pick_length _ _ hall⟩
+
+/-- **`pkg[i]` equals `pkg[i:i+1]`**, and both hold exactly channel `i` -/
+theorem getItem_eq_getSlice (pkg : AWGPkg) (i : ℤ) (h0 : 0 ≤ i) (h1 : i < pkg.wfms.length) :
+    getItem pkg i = getSlice pkg (some i) (some (i + 1)) none ∧
+    getItem pkg i = .ok (select pkg [i.toNat]) ∧
+    (select pkg [i.toNat]).wfms = [pkg.wfms[i.toNat]'(by omega)] := by
+  obtain ⟨e1, e2⟩ := index_eq_slice pkg.wfms.length i h0 h1
+  refine ⟨?_, ?_, ?_⟩
+  · simp [getItem, getSlice, e1, e2]
+  · simp [getItem, e1, Except.map]
+  · exact pick_single _ _ _
+
+/-- an index that is not a channel index: KeyError -/
+theorem getItem_out_of_range (pkg : AWGPkg) (i : ℤ) (h : i < 0 ∨ (pkg.wfms.length : ℤ) ≤ i) :
+    getItem pkg i = .error .key := by
+  simp [getItem, index_out_of_range _ i h, Except.map]
+
+/-- a slice whose indices all exist selects exactly the channels `start, start+step, ... < stop` -/
+theorem getSlice_spec (pkg : AWGPkg) (a b c : ℤ) (hc : c ≠ 0)
+    (hall : ∀ i ∈ pyRange a b c, 0 ≤ i ∧ i < pkg.wfms.length) :
+    getSlice pkg (some a) (some b) (some c) = .ok (select pkg ((pyRange a b c).map Int.toNat)) := by
+  simp [getSlice, slice_spec _ a b c hc hall, Except.map]
+
+/-- **`pkg[:]` is everything**: for a package whose three column lists have one column per channel
+    (see `awg_slice_all` for the delivered package) -/
+theorem getSlice_all (pkg : AWGPkg) (hm1 : pkg.m1s.length = pkg.wfms.length) (hm2 : pkg.m2s.length = pkg.wfms.length) :
+    getSlice pkg none none none = .ok pkg := by
+  simp only [getSlice, slice_all, Except.map, select]
+  have e1 := pick_range pkg.wfms
+  have e2 := pick_range pkg.m1s
+  have e3 := pick_range pkg.m2s
+  rw [hm1] at e2
+  rw [hm2] at e3
+  rw [e1, e2, e3]
+
+/-- **`pkg[:]` of the delivered package is the whole package** (every channel, in
+    `Sequence.channels` order, see `awg_content_channels`) -/
+theorem awg_slice_all (s : Sequence) (d : Deferred AWGPkg) (pkg : AWGPkg)
+    (h : s.outputForAWGFile = .ok d) (hp : d.pkg = some pkg) : getSlice pkg none none none = .ok pkg := by
+  obtain ⟨P, _, _, _, hw, h1, h2, _⟩ := awg_shape s d pkg h hp
+  exact getSlice_all pkg (by omega) (by omega)
+
+/-- for the delivered package `pkg[i]` = `pkg[i:i+1]` for every channel index `i` of `Sequence.channels` -/
+theorem awg_index_eq_slice (s : Sequence) (d : Deferred AWGPkg) (pkg : AWGPkg)
+    (h : s.outputForAWGFile = .ok d) (hp : d.pkg = some pkg) (chans : List Chan) (hch : s.channels = .ok chans)
+    (i : ℕ) (hi : i < chans.length) :
+    getItem pkg (i : ℤ) = getSlice pkg (some (i : ℤ)) (some ((i : ℤ) + 1)) none ∧
+    getItem pkg (i : ℤ) = .ok (select pkg [i]) := by
+  obtain ⟨P, _, _, hch', hw, _⟩ := awg_shape s d pkg h hp
+  rw [hch] at hch'
+  simp only [Except.ok.injEq] at hch'
+  subst hch'
+  obtain ⟨e1, e2, _⟩ := getItem_eq_getSlice pkg (i : ℤ) (by omega) (by omega)
+  exact ⟨e1, by simpa using e2⟩
+
+/-- the samples a delivered waveform holds: the forged voltages, mapped through the code's
+    `rescaler` when the AWG5014 rescaling `(amplitude, offset)` was applied (`none`: the model cannot
+    evaluate the waveform — symbolic pulse or filter compensation) -/
+def deliveredSamples (w : Wave) : Option (List ℚ) :=
+  match w.resc with
+  | some (a, o) => w.eval?.map (fun xs => xs.map (fun v => Gen.rescaler v a o))
+  | none => w.eval?
+
+/-- **every delivered sample lies in [-1, 1]** (lift of `delivered_in_unit` to the package): for a
+    delivered package with positive channel amplitudes, every waveform `pkg.wfms[i][p]` carries the
+    rescaling (amplitude, offset) of channel `Sequence.channels[i]`; if the model can evaluate it,
+    its voltages `xs` lie in `[offset - amplitude/2, offset + amplitude/2]`, the delivered samples
+    are `(v - offset)/(amplitude/2)` and all lie in `[-1, 1]` -/
+theorem awg_delivered_in_unit (s : Sequence) (d : Deferred AWGPkg) (pkg : AWGPkg)
+    (h : s.outputForAWGFile = .ok d) (hp : d.pkg = some pkg)
+    (i p : ℕ) (w : Wave) (hw : (pkg.wfms[i]?).bind (·[p]?) = some w) :
+    ∃ (hi : i < pkg.channels.length) (a o : ℚ),
+      s.specNum (keyOf pkg.channels[i] "amplitude") = some a ∧ s.specNum (keyOf pkg.channels[i] "offset") = some o ∧
+      w.resc = some (a, o) ∧
+      ∀ xs, w.eval? = some xs →
+        (∀ x ∈ xs, o - a / 2 ≤ x ∧ x ≤ o + a / 2) ∧
+        deliveredSamples w = some (xs.map (fun v => Gen.rescaler v a o)) ∧
+        (0 < a → ∀ y ∈ xs.map (fun v => Gen.rescaler v a o), -1 ≤ y ∧ y ≤ 1) ∧
+        (0 < a → xs.map (fun v => Gen.rescaler v a o) = xs.map (fun v => (v - o) / (a / 2))) := by
+  obtain ⟨P, hP, _, _, hwl, _, _, hcol, _⟩ := awg_shape s d pkg h hp
+  obtain ⟨P', hP', _, hcell, _⟩ := awg_content_channels s d pkg h hp
+  have hPP : P' = P := by
+    rw [hP] at hP'
+    exact (Except.ok.inj hP').symm
+  subst hPP
+  have hi : i < pkg.wfms.length := by
+    by_contra hn
+    have : pkg.wfms[i]? = none := by simp; omega
+    rw [this] at hw; cases hw
+  have hcolp : p < (pkg.wfms[i]).length := by
+    by_contra hn
+    rw [List.getElem?_eq_getElem hi] at hw
+    simp only [Option.bind_some] at hw
+    have : (pkg.wfms[i])[p]? = none := by simp; omega
+    rw [this] at hw; cases hw
+  have hpp : p < P'.length := by rw [← hcol _ (List.getElem_mem hi)]; exact hcolp
+  have hic : i < pkg.channels.length := by omega
+  obtain ⟨ob, w', c, m1, m2, hck, hw', _⟩ := hcell i hic p hpp
+  rw [hw] at hw'
+  simp only [Option.some.injEq] at hw'
+  subst hw'
+  obtain ⟨a, o, c', w0, ha, ho, _, _, hweq, hev, _⟩ := awgCheckWave_ok s (p + 1) P'[p] pkg.channels[i] ob w hck
+  refine ⟨hic, a, o, ha, ho, by rw [hweq], ?_⟩
+  intro xs hxs
+  have hxs0 : w0.eval? = some xs := by rw [hweq] at hxs; exact hxs
+  obtain ⟨hrc, _⟩ := hev xs hxs0
+  have hrange : ∀ x ∈ xs, o - a / 2 ≤ x ∧ x ≤ o + a / 2 := by
+    intro x hx
+    have hne : xs ≠ [] := by intro he; rw [he] at hx; simp at hx
+    exact ((range_check_iff xs a o hne).1.mp hrc) x hx
+  refine ⟨hrange, ?_, ?_, ?_⟩
+  · unfold deliveredSamples
+    rw [hweq]
+    simp only
+    show (Wave.eval? { w0 with resc := some (a, o) }).map _ = _
+    have : Wave.eval? { w0 with resc := some (a, o) } = w0.eval? := rfl
+    rw [this, hxs0]; rfl
+  · intro hapos y hy
+    obtain ⟨x, hx, rfl⟩ := List.mem_map.mp hy
+    exact rescale_range x a o hapos (hrange x hx).1 (hrange x hx).2
+  · intro hapos
+    apply List.map_congr_left
+    intro x _
+    exact rescale_spec x a o (ne_of_gt hapos)
+
+/-! ### the error direction, at the public operation -/
+
+/-- every channel of the forged elements that is looked up holds a waveform and both marker
+    arrays: true for every blueprint channel; a raw-array channel must have been given 'm1' and
+    'm2' (its 'wfm' is always there) — otherwise the output methods raise KeyError -/
+def CellsOk (P : List (Dict Chan ChOutF)) (chans : List Chan) : Prop :=
+  ∀ el ∈ P, ∀ ch ∈ chans, ∀ c, lookupCh el ch = .ok c →
+    (∃ w, chWave c = .ok w) ∧ (∃ m, chMarker c 1 = .ok m) ∧ (∃ m, chMarker c 2 = .ok m)
+
+/-- blueprint channels always satisfy `CellsOk` -/
+theorem cellsOk_of_forged (P : List (Dict Chan ChOutF)) (chans : List Chan)
+    (h : ∀ el ∈ P, ∀ x ∈ el, ∃ f fl t, x.2.out = .forged f fl t) : CellsOk P chans := by
+  intro el hel ch _ c hc
+  unfold lookupCh at hc
+  split at hc
+  · rename_i c' hg
+    simp only [Except.ok.injEq] at hc
+    subst hc
+    obtain ⟨f, fl, t, hf⟩ := h el hel _ (Dict.mem_of_get?_eq_some _ _ hg)
+    simp only at hf
+    simp [chWave, chMarker, hf]
+  · cases hc
+
+/-- ValueError clause: the voltage check either passes or raises ValueError, nothing else -/
+theorem awgRangeCheck_total (xs : List ℚ) (a o : ℚ) :
+    awgRangeCheck xs a o = .ok () ∨ awgRangeCheck xs a o = .error .value := by
+  unfold awgRangeCheck
+  split
+  · exact .inr rfl
+  · split
+    · exact .inr rfl
+    · exact .inl rfl
+
+/-- ValueError clause, one waveform: with numeric amplitude/offset and a waveform on the channel, the
+    phase-1 check of `outputForAWGFile` either accepts the waveform or raises ValueError; it raises when an
+    evaluable waveform fails the voltage check and accepts when it passes or cannot be evaluated -/
+theorem awgCheckWave_total (s : Sequence) (pos : ℕ) (el : Dict Chan ChOutF) (ch : Chan) (a o : ℚ) (c : ChOutF) (w : Wave)
+    (ha : s.specNum (keyOf ch "amplitude") = some a) (ho : s.specNum (keyOf ch "offset") = some o)
+    (hc : lookupCh el ch = .ok c) (hw : chWave c = .ok w) :
+    ((∃ y, awgCheckWave s pos el ch = .ok y) ∨ awgCheckWave s pos el ch = .error .value) ∧
+    (∀ xs, w.eval? = some xs → awgRangeCheck xs a o ≠ .ok () → awgCheckWave s pos el ch = .error .value) ∧
+    (∀ xs, w.eval? = some xs → awgRangeCheck xs a o = .ok () → ∃ y, awgCheckWave s pos el ch = .ok y) ∧
+    (w.eval? = none → ∃ y, awgCheckWave s pos el ch = .ok y) := by
+  unfold awgCheckWave
+  simp only [ha, ho, hc, hw]
+  cases hxs : w.eval? with
+  | none => simp
+  | some xs =>
+    simp only
+    rcases awgRangeCheck_total xs a o with hr | hr
+    · simp [hr, Except.map]
+    · simp [hr, Except.map]
+
+/-- **a voltage outside the channel range: ValueError** — for a sequence that passed
+    `_prepareForOutputting`, with numeric amplitude and offset on every channel and a waveform on
+    every looked-up channel, one evaluable waveform with one sample outside
+    `[offset - amplitude/2, offset + amplitude/2]` makes `outputForAWGFile` raise ValueError
+    (nothing is clipped, nothing is returned) -/
+theorem awg_value_error (s : Sequence) (P : List (Dict Chan ChOutF)) (chans : List Chan)
+    (hP : s.prepareForOutputting = .ok P) (hch : s.channels = .ok chans)
+    (hnum : ∀ ch ∈ chans, (∃ a, s.specNum (keyOf ch "amplitude") = some a) ∧ (∃ o, s.specNum (keyOf ch "offset") = some o))
+    (hwave : ∀ el ∈ P, ∀ ch ∈ chans, ∀ c, lookupCh el ch = .ok c → ∃ w, chWave c = .ok w)
+    (p : ℕ) (hp : p < P.length) (ch : Chan) (hm : ch ∈ chans) (c : ChOutF) (w : Wave) (xs : List ℚ) (a o x : ℚ)
+    (hc : lookupCh P[p] ch = .ok c) (hw : chWave c = .ok w) (hxs : w.eval? = some xs)
+    (ha : s.specNum (keyOf ch "amplitude") = some a) (ho : s.specNum (keyOf ch "offset") = some o)
+    (hx : x ∈ xs) (hout : x < o - a / 2 ∨ o + a / 2 < x) :
+    s.outputForAWGFile = .error .value := by
+  obtain ⟨hcc, en, hen, hchans⟩ := G3.channels_inv s chans hch
+  obtain ⟨chans', hch', _, _, hcells⟩ := G3.prepare_cells s P hP
+  rw [hch] at hch'
+  simp only [Except.ok.injEq] at hch'
+  subst hch'
+  have hany : chans.any (fun ch => !(Dict.has s.awgspecs (keyOf ch "offset"))) = false := by
+    simp only [List.any_eq_false, Bool.not_eq_true', Bool.not_eq_false]
+    intro ch' hm'
+    obtain ⟨_, o', ho'⟩ := hnum ch' hm'
+    simpa using G3.has_of_specNum s _ o' ho'
+  have hcell : ∀ p' (hp' : p' < P.length), ∀ ch' ∈ chans,
+      (∃ y, awgCheckWave s (p' + 1) P[p'] ch' = .ok y) ∨ awgCheckWave s (p' + 1) P[p'] ch' = .error .value := by
+    intro p' hp' ch' hm'
+    obtain ⟨e, _, hl⟩ := hcells p' hp'
+    obtain ⟨ent, c', _, hc', _⟩ := hl ch' hm'
+    obtain ⟨w', hw'⟩ := hwave _ (List.getElem_mem hp') ch' hm' c' hc'
+    obtain ⟨⟨a', ha'⟩, ⟨o', ho'⟩⟩ := hnum ch' hm'
+    exact (awgCheckWave_total s (p' + 1) P[p'] ch' a' o' c' w' ha' ho' hc' hw').1
+  have hbadcell : awgCheckWave s (p + 1) P[p] ch = .error .value := by
+    apply (awgCheckWave_total s (p + 1) P[p] ch a o c w ha ho hc hw).2.1 xs hxs
+    intro hok
+    have hne : xs ≠ [] := by intro he; rw [he] at hx; simp at hx
+    have := ((range_check_iff xs a o hne).1.mp hok) x hx
+    rcases hout with h1 | h1 <;> linarith [this.1, this.2]
+  have hmap : (P.zip (List.range P.length)).mapM (fun p => chans.mapM (awgCheckWave s (p.2 + 1) p.1)) = .error .value := by
+    apply G3.mapM_error_of
+    · intro x hx'
+      obtain ⟨p', hp', rfl⟩ := G3.mem_zip_range P x hx'
+      exact G3.mapM_ok_or_error _ _ _ (hcell p' hp')
+    · refine ⟨(P[p], p), G3.zip_range_mem P p hp, ?_⟩
+      exact G3.mapM_error_of _ _ _ (hcell p hp) ⟨ch, hm, hbadcell⟩
+  simp only [Sequence.outputForAWGFile, hP, hen, hchans, hany, hmap, Bool.false_eq_true, if_false]
+
+/-- SequencingError clause, one position: with both markers on every channel and a sequencing entry `q`,
+    phase 2 of `outputForAWGFile` returns the row when `q` passes the AWG5014 checks and raises
+    SequencingError otherwise -/
+theorem awgRow_total (s : Sequence) (chans : List Chan) (N : ℤ) (el : Dict Chan ChOutF) (p : ℕ) (q : SeqSet)
+    (hq : Dict.get? s.sequencing ((p + 1 : ℕ) : ℤ) = some q)
+    (hmk : ∀ ch ∈ chans, ∃ c m1 m2, lookupCh el ch = .ok c ∧ chMarker c 1 = .ok m1 ∧ chMarker c 2 = .ok m2) :
+    (awgSeqCheck q N = .ok () → ∃ y, awgRow s chans N (el, p) = .ok y) ∧
+    (awgSeqCheck q N ≠ .ok () → awgRow s chans N (el, p) = .error .sequencing) := by
+  unfold awgRow
+  simp only
+  split
+  · rename_i e he
+    exfalso
+    obtain ⟨ch, hm, hf⟩ := G3.mapM_error_mem _ _ _ he
+    obtain ⟨c, a, b, hc, ha, hb⟩ := hmk ch hm
+    simp only [hc, ha] at hf
+    cases hf
+  · split
+    · rename_i e he
+      exfalso
+      obtain ⟨ch, hm, hf⟩ := G3.mapM_error_mem _ _ _ he
+      obtain ⟨c, a, b, hc, ha, hb⟩ := hmk ch hm
+      simp only [hc, hb] at hf
+      cases hf
+    · simp only [hq]
+      constructor
+      · intro hok; rw [hok]; exact ⟨_, rfl⟩
+      · intro hbad
+        have := (seq_check_iff q N).2 hbad
+        rw [this]
+
+/-- **a sequencing setting outside the instrument ranges: SequencingError** — for a sequence that
+    passed `_prepareForOutputting`, with numeric amplitude/offset, waveform and markers on every
+    channel and every evaluable waveform in range, one position whose sequencing entry violates
+    (wait ∈ {0,1}, 0 ≤ repetitions ≤ 65536, -1 ≤ jump target ≤ N, 0 ≤ goto ≤ N) makes
+    `outputForAWGFile` raise SequencingError: at once when every waveform is evaluable in the
+    model; otherwise the result says "ValueError if a deferred range obligation fails, else
+    SequencingError" — in no case is a package returned, nothing is wrapped -/
+theorem awg_sequencing_error (s : Sequence) (P : List (Dict Chan ChOutF)) (chans : List Chan)
+    (hP : s.prepareForOutputting = .ok P) (hch : s.channels = .ok chans)
+    (hnum : ∀ ch ∈ chans, (∃ a, s.specNum (keyOf ch "amplitude") = some a) ∧ (∃ o, s.specNum (keyOf ch "offset") = some o))
+    (hcellsok : CellsOk P chans)
+    (hrange : ∀ el ∈ P, ∀ ch ∈ chans, ∀ c w xs a o, lookupCh el ch = .ok c → chWave c = .ok w → w.eval? = some xs →
+      s.specNum (keyOf ch "amplitude") = some a → s.specNum (keyOf ch "offset") = some o →
+      xs ≠ [] ∧ ∀ x ∈ xs, o - a / 2 ≤ x ∧ x ≤ o + a / 2)
+    (p : ℕ) (hp : p < P.length) (q : SeqSet) (hq : Dict.get? s.sequencing ((p + 1 : ℕ) : ℤ) = some q)
+    (hbad : ¬ ((q.twait = 0 ∨ q.twait = 1) ∧ (0 ≤ q.nrep ∧ q.nrep ≤ 65536) ∧
+      (-1 ≤ q.jump_target ∧ q.jump_target ≤ (P.length : ℤ)) ∧ (0 ≤ q.goto ∧ q.goto ≤ (P.length : ℤ)))) :
+    (s.outputForAWGFile = .error .sequencing ∨
+      ∃ d, s.outputForAWGFile = .ok d ∧ d.obligations ≠ [] ∧ d.thenErr = some .sequencing ∧ d.pkg = none) ∧
+    ((∀ el ∈ P, ∀ ch ∈ chans, ∀ c w, lookupCh el ch = .ok c → chWave c = .ok w → w.eval? ≠ none) →
+      s.outputForAWGFile = .error .sequencing) := by
+  obtain ⟨hcc, en, hen, hchans⟩ := G3.channels_inv s chans hch
+  obtain ⟨chans', hch', hlen, _, hcells⟩ := G3.prepare_cells s P hP
+  rw [hch] at hch'
+  simp only [Except.ok.injEq] at hch'
+  subst hch'
+  have hany : chans.any (fun ch => !(Dict.has s.awgspecs (keyOf ch "offset"))) = false := by
+    simp only [List.any_eq_false, Bool.not_eq_true', Bool.not_eq_false]
+    intro ch' hm'
+    obtain ⟨_, o', ho'⟩ := hnum ch' hm'
+    simpa using G3.has_of_specNum s _ o' ho'
+  have hlook : ∀ p' (hp' : p' < P.length), ∀ ch' ∈ chans, ∃ c', lookupCh P[p'] ch' = .ok c' := by
+    intro p' hp' ch' hm'
+    obtain ⟨e, _, hl⟩ := hcells p' hp'
+    obtain ⟨ent, c', _, hc', _⟩ := hl ch' hm'
+    exact ⟨c', hc'⟩
+  -- phase 1 passes
+  obtain ⟨checked, hchecked⟩ := G3.mapM_ok_of_forall_ex
+    (fun (p : Dict Chan ChOutF × ℕ) => chans.mapM (awgCheckWave s (p.2 + 1) p.1)) (P.zip (List.range P.length)) (by
+      intro x hx
+      obtain ⟨p', hp', rfl⟩ := G3.mem_zip_range P x hx
+      apply G3.mapM_ok_of_forall_ex
+      intro ch' hm'
+      obtain ⟨c', hc'⟩ := hlook p' hp' ch' hm'
+      obtain ⟨⟨w', hw'⟩, _, _⟩ := hcellsok _ (List.getElem_mem hp') ch' hm' c' hc'
+      obtain ⟨⟨a', ha'⟩, ⟨o', ho'⟩⟩ := hnum ch' hm'
+      have htot := awgCheckWave_total s (p' + 1) P[p'] ch' a' o' c' w' ha' ho' hc' hw'
+      cases hev : w'.eval? with
+      | none => exact htot.2.2.2 hev
+      | some xs =>
+        obtain ⟨hne, hr⟩ := hrange _ (List.getElem_mem hp') ch' hm' c' w' xs a' o' hc' hw' hev ha' ho'
+        exact htot.2.2.1 xs hev ((range_check_iff xs a' o' hne).1.mpr hr))
+  -- phase 2 raises SequencingError
+  have hmk : ∀ p' (hp' : p' < P.length), ∀ ch' ∈ chans, ∃ c m1 m2,
+      lookupCh P[p'] ch' = .ok c ∧ chMarker c 1 = .ok m1 ∧ chMarker c 2 = .ok m2 := by
+    intro p' hp' ch' hm'
+    obtain ⟨c', hc'⟩ := hlook p' hp' ch' hm'
+    obtain ⟨_, ⟨m1, h1⟩, ⟨m2, h2⟩⟩ := hcellsok _ (List.getElem_mem hp') ch' hm' c' hc'
+    exact ⟨c', m1, m2, hc', h1, h2⟩
+  have hrows : (P.zip (List.range P.length)).mapM (awgRow s chans (P.length : ℤ)) = .error .sequencing := by
+    apply G3.mapM_error_of
+    · intro x hx
+      obtain ⟨p', hp', rfl⟩ := G3.mem_zip_range P x hx
+      obtain ⟨q', hq'⟩ := G3.prepare_sequencing_lookup s P hP ((p' + 1 : ℕ) : ℤ) (by omega) (by omega)
+      have := awgRow_total s chans (P.length : ℤ) P[p'] p' q' hq' (hmk p' hp')
+      by_cases hok : awgSeqCheck q' (P.length : ℤ) = .ok ()
+      · exact .inl (this.1 hok)
+      · exact .inr (this.2 hok)
+    · refine ⟨(P[p], p), G3.zip_range_mem P p hp, ?_⟩
+      apply (awgRow_total s chans (P.length : ℤ) P[p] p q hq (hmk p hp)).2
+      intro hok
+      exact hbad ((seq_check_iff q _).1.mp hok)
+  constructor
+  · simp only [Sequence.outputForAWGFile, hP, hen, hchans, hany, hchecked, hrows, Bool.false_eq_true, if_false]
+    split
+    · exact .inl rfl
+    · rename_i hne
+      refine .inr ⟨_, rfl, ?_, rfl, rfl⟩
+      intro he
+      apply hne
+      simp only at he
+      simp [he]
+  · intro hev
+    have hobs : ((checked.map (fun row => (row.map (·.1)).flatten)).flatten).isEmpty = true := by
+      simp only [List.isEmpty_iff, List.flatten_eq_nil_iff, List.mem_map, forall_exists_index, and_imp,
+        forall_apply_eq_imp_iff₂]
+      intro row hrow cell hcell
+      obtain ⟨x, hx, hxr⟩ := G3.mapM_result_mem _ _ _ hchecked row hrow
+      obtain ⟨p', hp', rfl⟩ := G3.mem_zip_range P x hx
+      obtain ⟨ch', hm', hcw⟩ := G3.mapM_result_mem _ _ _ hxr cell hcell
+      obtain ⟨a', o', c', w0, _, _, hc', hw0, _, hsome, _⟩ :=
+        awgCheckWave_ok s (p' + 1) P[p'] ch' cell.1 cell.2 hcw
+      cases hxs : w0.eval? with
+      | none => exact absurd hxs (hev _ (List.getElem_mem hp') ch' hm' c' w0 hc' hw0)
+      | some xs => exact (hsome xs hxs).2
+    simp only [Sequence.outputForAWGFile, hP, hen, hchans, hany, hchecked, hrows, Bool.false_eq_true, if_false]
+    rw [if_pos hobs]
+
+/-- **acceptance**: a sequence that passed `_prepareForOutputting`, with numeric amplitude and
+    offset on every channel, waveform and markers on every channel, every evaluable waveform within
+    `[offset - amplitude/2, offset + amplitude/2]` and every sequencing entry within the instrument
+    ranges, gets its package from `outputForAWGFile` (no pending exception; range obligations remain
+    only for waveforms the model cannot evaluate) -/
+theorem awg_accepts (s : Sequence) (P : List (Dict Chan ChOutF)) (chans : List Chan)
+    (hP : s.prepareForOutputting = .ok P) (hch : s.channels = .ok chans)
+    (hnum : ∀ ch ∈ chans, (∃ a, s.specNum (keyOf ch "amplitude") = some a) ∧ (∃ o, s.specNum (keyOf ch "offset") = some o))
+    (hcellsok : CellsOk P chans)
+    (hrange : ∀ el ∈ P, ∀ ch ∈ chans, ∀ c w xs a o, lookupCh el ch = .ok c → chWave c = .ok w → w.eval? = some xs →
+      s.specNum (keyOf ch "amplitude") = some a → s.specNum (keyOf ch "offset") = some o →
+      xs ≠ [] ∧ ∀ x ∈ xs, o - a / 2 ≤ x ∧ x ≤ o + a / 2)
+    (hseq : ∀ p, p < P.length → ∀ q, Dict.get? s.sequencing ((p + 1 : ℕ) : ℤ) = some q →
+      (q.twait = 0 ∨ q.twait = 1) ∧ (0 ≤ q.nrep ∧ q.nrep ≤ 65536) ∧
+      (-1 ≤ q.jump_target ∧ q.jump_target ≤ (P.length : ℤ)) ∧ (0 ≤ q.goto ∧ q.goto ≤ (P.length : ℤ))) :
+    ∃ d pkg, s.outputForAWGFile = .ok d ∧ d.thenErr = none ∧ d.pkg = some pkg := by
+  obtain ⟨hcc, en, hen, hchans⟩ := G3.channels_inv s chans hch
+  obtain ⟨chans', hch', hlen, _, hcells⟩ := G3.prepare_cells s P hP
+  rw [hch] at hch'
+  simp only [Except.ok.injEq] at hch'
+  subst hch'
+  have hany : chans.any (fun ch => !(Dict.has s.awgspecs (keyOf ch "offset"))) = false := by
+    simp only [List.any_eq_false, Bool.not_eq_true', Bool.not_eq_false]
+    intro ch' hm'
+    obtain ⟨_, o', ho'⟩ := hnum ch' hm'
+    simpa using G3.has_of_specNum s _ o' ho'
+  have hlook : ∀ p' (hp' : p' < P.length), ∀ ch' ∈ chans, ∃ c', lookupCh P[p'] ch' = .ok c' := by
+    intro p' hp' ch' hm'
+    obtain ⟨e, _, hl⟩ := hcells p' hp'
+    obtain ⟨ent, c', _, hc', _⟩ := hl ch' hm'
+    exact ⟨c', hc'⟩
+  obtain ⟨checked, hchecked⟩ := G3.mapM_ok_of_forall_ex
+    (fun (p : Dict Chan ChOutF × ℕ) => chans.mapM (awgCheckWave s (p.2 + 1) p.1)) (P.zip (List.range P.length)) (by
+      intro x hx
+      obtain ⟨p', hp', rfl⟩ := G3.mem_zip_range P x hx
+      apply G3.mapM_ok_of_forall_ex
+      intro ch' hm'
+      obtain ⟨c', hc'⟩ := hlook p' hp' ch' hm'
+      obtain ⟨⟨w', hw'⟩, _, _⟩ := hcellsok _ (List.getElem_mem hp') ch' hm' c' hc'
+      obtain ⟨⟨a', ha'⟩, ⟨o', ho'⟩⟩ := hnum ch' hm'
+      have htot := awgCheckWave_total s (p' + 1) P[p'] ch' a' o' c' w' ha' ho' hc' hw'
+      cases hev : w'.eval? with
+      | none => exact htot.2.2.2 hev
+      | some xs =>
+        obtain ⟨hne, hr⟩ := hrange _ (List.getElem_mem hp') ch' hm' c' w' xs a' o' hc' hw' hev ha' ho'
+        exact htot.2.2.1 xs hev ((range_check_iff xs a' o' hne).1.mpr hr))
+  have hmk : ∀ p' (hp' : p' < P.length), ∀ ch' ∈ chans, ∃ c m1 m2,
+      lookupCh P[p'] ch' = .ok c ∧ chMarker c 1 = .ok m1 ∧ chMarker c 2 = .ok m2 := by
+    intro p' hp' ch' hm'
+    obtain ⟨c', hc'⟩ := hlook p' hp' ch' hm'
+    obtain ⟨_, ⟨m1, h1⟩, ⟨m2, h2⟩⟩ := hcellsok _ (List.getElem_mem hp') ch' hm' c' hc'
+    exact ⟨c', m1, m2, hc', h1, h2⟩
+  obtain ⟨rows, hrows⟩ := G3.mapM_ok_of_forall_ex (awgRow s chans (P.length : ℤ)) (P.zip (List.range P.length)) (by
+    intro x hx
+    obtain ⟨p', hp', rfl⟩ := G3.mem_zip_range P x hx
+    obtain ⟨q', hq'⟩ := G3.prepare_sequencing_lookup s P hP ((p' + 1 : ℕ) : ℤ) (by omega) (by omega)
+    apply (awgRow_total s chans (P.length : ℤ) P[p'] p' q' hq' (hmk p' hp')).1
+    exact (seq_check_iff q' _).1.mpr (hseq p' hp' q' hq'))
+  refine ⟨⟨(checked.map (fun row => (row.map (·.1)).flatten)).flatten, none,
+    some (awgPackage chans chans.length (checked.map (fun row => row.map (·.2))) rows)⟩, _, ?_, rfl, rfl⟩
+  simp only [Sequence.outputForAWGFile, hP, hen, hchans, hany, hchecked, hrows, hch, Bool.false_eq_true, if_false]
+
+/-! ### non-vacuity of the package theorems (concrete sequences of `BB.G3.Ex`) -/
+
+/-- `CellsOk` from its decidable version -/
+theorem cellsOk_of_check (P : List (Dict Chan ChOutF)) (chans : List Chan)
+    (h : G3.cellCheck P chans G3.fullB = true) : CellsOk P chans := by
+  intro el hel ch hch c hc
+  have := G3.cellCheck_spec P chans _ h el hel ch hch c hc
+  unfold G3.fullB at this
+  simp only [Bool.and_eq_true] at this
+  exact ⟨G3.isSome_toOption _ this.1.1, G3.isSome_toOption _ this.1.2, G3.isSome_toOption _ this.2⟩
+
+/-- `awg_shape`, `awg_content_channels`, `awg_slice_all`, `awg_index_eq_slice`,
+    `awg_delivered_in_unit`: their hypotheses hold for the two-position, two-channel example -/
+example : ∃ d pkg, G3.Ex.seq.outputForAWGFile = .ok d ∧ d.pkg = some pkg := by
+  obtain ⟨d, pkg, h, hp, _⟩ := G3.Ex.seq_awg_ok
+  exact ⟨d, pkg, h, hp⟩
+
+/-- ... and what is delivered there: channel 1 (amplitude 2, offset 1) holds 0, 1/2, 1 V at position
+    1, delivered as -1, -1/2, 0; channel "A" (amplitude 1, offset 0) holds 0, -1/4, 1/4 V, delivered
+    as 0, -1/2, 1/2; repetitions and goto in position order although position 2 was added first -/
+example :
+    (G3.Ex.seq.outputForAWGFile.toOption.bind (·.pkg)).map (·.channels) = some [.int 1, .str "A"] ∧
+    (G3.Ex.seq.outputForAWGFile.toOption.bind (·.pkg)).map (fun pkg => pkg.wfms.map (·.map deliveredSamples)) =
+      some [[some [-1, -1/2, 0], some [0, 1/2, 1]], [some [0, -1/2, 1/2], some [0, 0, 1/2]]] ∧
+    (G3.Ex.seq.outputForAWGFile.toOption.bind (·.pkg)).map (fun pkg => (pkg.nreps, pkg.gotos)) =
+      some ([5, 1], [0, 1]) := by decide +kernel
+
+/-- `getItem_eq_getSlice`, `getSlice_all`, `select_getElem`: a package and an index meeting the hypotheses -/
+example : ∃ (pkg : AWGPkg) (i : ℤ), 0 ≤ i ∧ i < pkg.wfms.length ∧ pkg.m1s.length = pkg.wfms.length ∧
+    pkg.m2s.length = pkg.wfms.length ∧ ∀ j ∈ [1, 0], j < pkg.wfms.length := by
+  obtain ⟨d, pkg, h, hp, _⟩ := G3.Ex.seq_awg_ok
+  obtain ⟨P, _, _, hch, hw, h1, h2, _⟩ := awg_shape _ d pkg h hp
+  have hc : pkg.channels = G3.Ex.chans := by
+    rw [G3.Ex.seq_channels] at hch; exact (Except.ok.inj hch).symm
+  have hl : pkg.wfms.length = 2 := by rw [hw, hc]; rfl
+  refine ⟨pkg, 1, by omega, by omega, by omega, by omega, ?_⟩
+  intro j hj
+  simp only [List.mem_cons, List.not_mem_nil, or_false] at hj
+  omega
+
+/-- `getSlice_spec`: `pkg[0:2:1]` on a two-channel package -/
+example : ∀ i ∈ pyRange 0 2 1, (0 : ℤ) ≤ i ∧ i < ((2 : ℕ) : ℤ) := by decide
+
+/-- `getItem_out_of_range`: index 2 of a two-channel package -/
+example : (2 : ℤ) < 0 ∨ ((2 : ℕ) : ℤ) ≤ 2 := by decide
+
+/-- `awg_value_error` applied: channel 1 (range [0, 2]) reaches 2 + 1/1000 at position 2 -/
+example : G3.Ex.seqBadV.outputForAWGFile = .error .value :=
+  awg_value_error G3.Ex.seqBadV G3.Ex.PBadV G3.Ex.chans G3.Ex.seqBadV_prepare G3.Ex.seqBadV_channels
+    (G3.numB_spec _ _ (by decide +kernel)) (G3.waveB_spec _ _ (by decide +kernel))
+    1 (by decide +kernel) (.int 1) (by decide)
+    { out := .arrays [("m1", [0, 0, 0]), ("m2", [1, 1, 1]), ("wfm", [1, 3/2, 2 + 1/1000])] none none }
+    { blocks := [.raw [1, 3/2, 2 + 1/1000]] } [1, 3/2, 2 + 1/1000] 2 1 (2 + 1/1000)
+    (G3.toOption_eq_some _ _ (by decide +kernel)) (by decide +kernel) (by decide +kernel)
+    (by decide +kernel) (by decide +kernel) (by simp) (by norm_num)
+
+/-- `awg_sequencing_error` applied: 65537 repetitions at position 2, every waveform evaluable -/
+example : G3.Ex.seqBadRep.outputForAWGFile = .error .sequencing :=
+  (awg_sequencing_error G3.Ex.seqBadRep G3.Ex.P G3.Ex.chans G3.Ex.seqBadRep_prepare G3.Ex.seqBadRep_channels
+    (G3.numB_spec _ _ (by decide +kernel)) (cellsOk_of_check _ _ (by decide +kernel))
+    (G3.awgRangeB_spec _ _ _ (by decide +kernel))
+    1 (by decide +kernel) ⟨0, 65537, 0, 0, 1⟩ (by decide +kernel) (by decide)).2
+    (G3.evalB_spec _ _ (by decide +kernel))
+
+/-- `awg_accepts` applied: the two-position example meets every hypothesis -/
+example : ∃ d pkg, G3.Ex.seq.outputForAWGFile = .ok d ∧ d.thenErr = none ∧ d.pkg = some pkg :=
+  awg_accepts G3.Ex.seq G3.Ex.P G3.Ex.chans G3.Ex.seq_prepare G3.Ex.seq_channels
+    (G3.numB_spec _ _ (by decide +kernel)) (cellsOk_of_check _ _ (by decide +kernel))
+    (G3.awgRangeB_spec _ _ _ (by decide +kernel))
+    (by
+      have hl : G3.Ex.P.length = 2 := by decide +kernel
+      have := G3.seqCheck_spec G3.Ex.seq 2 (fun q => decide ((q.twait = 0 ∨ q.twait = 1) ∧ (0 ≤ q.nrep ∧ q.nrep ≤ 65536) ∧
+        (-1 ≤ q.jump_target ∧ q.jump_target ≤ 2) ∧ (0 ≤ q.goto ∧ q.goto ≤ 2))) (by decide +kernel)
+      intro p hp q hq
+      rw [hl] at hp ⊢
+      simpa using this p hp q hq)
+
+/-- `pkg[i]` holds exactly the three columns of channel `i` -/
+theorem select_single (pkg : AWGPkg) (i : ℕ) (hi : i < pkg.wfms.length)
+    (hm1 : pkg.m1s.length = pkg.wfms.length) (hm2 : pkg.m2s.length = pkg.wfms.length) :
+    (select pkg [i]).wfms = [pkg.wfms[i]] ∧ (select pkg [i]).m1s = [pkg.m1s[i]'(by omega)] ∧
+    (select pkg [i]).m2s = [pkg.m2s[i]'(by omega)] :=
+  ⟨pick_single _ _ hi, pick_single _ _ (by omega), pick_single _ _ (by omega)⟩
+
+/-- a slice reaching outside the existing channel indices (e.g. `pkg[0:5]` on two channels, or a
+    negative index): KeyError, as `self._channels[ind]` raises in the code — nothing is truncated -/
+theorem getSlice_out_of_range (pkg : AWGPkg) (a b c : ℤ) (hc : c ≠ 0)
+    (i : ℤ) (hi : i ∈ pyRange a b c) (hout : i < 0 ∨ (pkg.wfms.length : ℤ) ≤ i) :
+    getSlice pkg (some a) (some b) (some c) = .error .key := by
+  have : awgSlice pkg.wfms.length (some a) (some b) (some c) = .error .key := by
+    unfold awgSlice
+    simp only [Option.getD_some, hc, if_false]
+    apply G3.mapM_error_of
+    · intro x _
+      by_cases hx : 0 ≤ x ∧ x < (pkg.wfms.length : ℤ)
+      · exact .inl ⟨x.toNat, by simp [hx]⟩
+      · exact .inr (by simp [hx])
+    · refine ⟨i, hi, ?_⟩
+      have : ¬ (0 ≤ i ∧ i < (pkg.wfms.length : ℤ)) := by omega
+      simp [this]
+  simp [getSlice, this, Except.map]
+
+/-- a zero step: ValueError (`range()` refuses it) -/
+theorem getSlice_zero_step (pkg : AWGPkg) (a b : Option ℤ) : getSlice pkg a b (some 0) = .error .value := by
+  simp [getSlice, awgSlice, Except.map]
+
+/-- `getSlice_out_of_range`: `pkg[0:5]` on a two-channel package reaches index 2 -/
+example : (2 : ℤ) ∈ pyRange 0 5 1 ∧ ((2 : ℤ) < 0 ∨ ((2 : ℕ) : ℤ) ≤ 2) := by decide
+
+/-- **the side condition `CellsOk` in terms of what was stored**: if every channel of every stored
+    element is a blueprint or a raw-array set given with 'm1' and 'm2' (`G3.entOkB`), the forged
+    elements of `_prepareForOutputting` hold waveform and both markers on every channel — delays and
+    filter compensation keep the kind of entry and the array names -/
+theorem cellsOk_of_elements (s : Sequence) (P : List (Dict Chan ChOutF)) (chans : List Chan)
+    (hP : s.prepareForOutputting = .ok P)
+    (hst : ∀ p e ch ent, Dict.get? s.data p = some (.el e) → Dict.get? e.chans ch = some ent → G3.entOkB ent = true) :
+    CellsOk P chans := by
+  intro el hel ch _ c hc
+  exact G3.prepare_cells_ok s P hP hst el hel ch c hc
+
+/-- `cellsOk_of_elements` applied to the two-position raw-array example -/
+example : CellsOk G3.Ex.P G3.Ex.chans :=
+  cellsOk_of_elements G3.Ex.seq G3.Ex.P G3.Ex.chans G3.Ex.seq_prepare (G3.storedOkB_spec _ (by decide +kernel))
+
+/-! ### model note: the empty waveform -/
+
+/-- one position, one channel (amplitude 2, offset 0), raw arrays of length 0 -/
+def emptySeq : Sequence :=
+  { data := [(1, .el { chans := [(.int 1, { data := .arr [("m1", []), ("m2", []), ("wfm", [])] (.num 10) })] })],
+    sequencing := [(1, ⟨0, 1, 0, 0, 0⟩)],
+    awgspecs := [("SR", .val (.num 10)), ("channel1_amplitude", .val (.num 2)), ("channel1_offset", .val (.num 0))] }
+
+/-- MODEL GAP (totalised `maxR [] = 0`): for an EMPTY raw waveform the model's `outputForAWGFile`
+    delivers a package, whereas the code raises ValueError (`wfm.max()` of a zero-size numpy array;
+    checked against broadbean: "zero-size array to reduction operation maximum which has no
+    identity").  This is why `range_check_iff`, `awg_accepts` and `awg_sequencing_error` carry the
+    guard `xs ≠ []`; `awg_delivered_in_unit` is vacuous (not wrong) for such a waveform. -/
+example : (emptySeq.outputForAWGFile.toOption.map (fun d => (d.pkg.isSome, d.thenErr, d.obligations.length))) =
+    some (true, none, 0) := by decide +kernel
 
 end BB.C14
